@@ -6,11 +6,7 @@ NOTES = ('Technique family: machine-checked proof in Lean 4. See DESIGN.md. Ever
          'defects repaired by unguarded fix: commits in /repo (listed with the failing input in known_findings.json): '
          '530162f, dd96fb5, a7b9e52, f840eca, 99f909c, fa487bb; recorded known findings: C05 gauss_log 15/31 tables, '
          'C09 seam pair on one piece, C17 cache key ignores the operator configuration.')
-NOT_APPLICABLE = [
-    dict(property_id='C13', reason='quantitative spectral bound (lambda_min > 0.01) on numerically assembled matrices '
-         'for all meshes: no decision logic to model; needs coercivity of the heat single-layer operator plus '
-         'quadrature error bounds, out of reach of a Lean model here (DESIGN.md section 9)'),
-]
+NOT_APPLICABLE = []
 _PENDING = ['C01', 'C02', 'C03', 'C04', 'C05', 'C06', 'C07', 'C08', 'C09', 'C10', 'C11', 'C12', 'C14', 'C16', 'C17',
             'C18', 'C19', 'C20']
 CHECKS = [
@@ -154,6 +150,33 @@ CHECKS = [
               'domain x segment to 1e-10 for dyadic segments on all three domains (cell classes, Jacobians, tiling). The '
               '1e-5 accuracy for the true kernel is searched against the closed-form potentials.',
          note='accuracy for the non-polynomial kernel E1 is not a theorem (searched, 1e-5); set iteration order of leaf_elements is not modelled (contributions compared sorted by element index); pi-square tied with the stand-in pi := 25/8'),
+    dict(id='C13', design_ref='DESIGN.md section 6 / C13', category='proof',
+         technique='Lean 4 verified certificate checker (LDL^T pivots of sym(A) - mu diag(A), proved sound AND complete over every ordered field, transfer Q -> R) run as compiled Lean code on the exact values of the assembled binary64 matrices + Lean theorems for the consequences',
+         text='Partial. Proved (Props/C13.lean): the executable checker of Model/PosDef.lean accepts a rational matrix A and a bound '
+              'mu iff mu * sum a_ii x_i^2 < x^T A x for every x != 0 (certPD_iff, scaled_bound_iff), and the SAME run over Q '
+              'decides the statement over the reals for the real matrix with these entries (scaled_bound_real_iff: the '
+              'elimination commutes with the cast); a rejected matrix comes with the existence of a violating vector '
+              '(notpd_witness, c13_partial). Consequences for every real matrix with positive definite symmetric part '
+              '(the "so that" part of the property): det != 0, injective, exactly one solution of A Phi = rhs '
+              '(unique_solvability); d^T A d > 0 for d != 0 and = 0 for d = 0, sqrt(d^T A d)^2 = d^T A d (hh2_energy); every '
+              'principal sub-matrix inherits the property, so the three scaling factors psi^T S psi of a 4x4 child block are '
+              'positive (hierarchical_scaling_pos); positive diagonal; Rayleigh quotient of D^-1/2 A D^-1/2 and every '
+              'eigenvalue of its symmetric part above mu (certified_consequences). Tie / decision per matrix: the REAL '
+              'bilform_matrix (serial path) is run on every shipped curve x {initial, time grids, uniform, random bisections, '
+              'Doerfler isotropic/anisotropic, point-graded, refine_grading, anisotropic} meshes (n <= 52 quick / 80 '
+              'thorough with the exact elimination; up to 135 / 262 with a second compiled checker, proved sound for every hint '
+              '(domCertScaledQ_sound): R^T (sym A - mu diag) R strictly diagonally dominant for an untrusted floating-point '
+              'Cholesky hint R), every binary64 entry is sent exactly to the compiled checker with mu = 1/100: notpd is a proof '
+              'that this assembled matrix violates the bound (violation with the mesh history and the matrix), ok is a '
+              'checked certificate; likewise the 4x4 child blocks of the hierarchical estimator and the fine matrix '
+              'assembled by the h-h/2 estimator; numpy eigvalsh only as a cross-check (and alone for n up to ~500). The '
+              'driver command is tied to an independent Fraction LDL^T and to Sylvester\'s criterion on random exact '
+              'matrices. NOT decided: that the bound holds on EVERY mesh -- that needs the coercivity of the heat '
+              'single-layer operator and quadrature/rounding error bounds; the meshes are a sample with a verified oracle.',
+         note='the for-all-meshes spectral bound is not proved (no coercivity theory / quadrature error analysis in Mathlib); '
+              'Lean compiler + GMP runtime executing the verified checker and the driver parser are trusted; the bound is '
+              'decided for the stored binary64 matrix, not for the exact Galerkin matrix; exact elimination costs ~n^4.3 '
+              '(n = 64: 4 s, n = 104: 28 s), the hint-based checker ~n^3 (n = 130: 8 s, n = 256: 66 s); still larger matrices are only checked numerically'),
     dict(id='C14', design_ref='DESIGN.md section 6 / C14', category='proof',
          technique='Lean 4 theorems (reduction of the seminorm rules to moment functionals, rule-independence under exact moments, invariances) + exact execution of the real Slobodeckij class on rational stand-in rules',
          text='Proof in exact arithmetic for every rule and interval: non-negativity, zero on constants, quadratic scaling, '
